@@ -1004,15 +1004,40 @@ package valid
 //@   at call GetJoinValidErrStr#0 assert [C15 re.default] byteAt(validName, i+1) == 39 && byteAt(validName, i) != 92 && ParseValidNameKV.cusMsg(validName[:splitIndex] ++ validName[i+1:]) == ""
 //@   loop#0 decreases l - i
 
+// ints: a string is judged piece by piece (strings.Split at the separator in force: the rule's value, "," when it has none);
+// a slice or array element by element on its canonical rendering; integer kinds always pass
 //@ func Ints
+//@   let sp = ite(ParseValidNameKV.value(validName) == "", ",", ParseValidNameKV.value(validName))
+//@   let k = rv.kind(tv)
+//@   ensures [C05 ints.verdict.str] k == 24 && sb.nw(errBuf) > old(sb.nw(errBuf)) ==> exists(j Int :: {splitAt(rv.str(tv), sp, j)} 0 <= j && j < splitCount(rv.str(tv), sp) && !matches(IntRe, splitAt(rv.str(tv), sp, j)))
+//@   ensures [C05 ints.verdict.str] k == 24 && sb.nw(errBuf) == old(sb.nw(errBuf)) ==> forall(j Int :: {splitAt(rv.str(tv), sp, j)} 0 <= j && j < splitCount(rv.str(tv), sp) ==> matches(IntRe, splitAt(rv.str(tv), sp, j)))
+//@   ensures [C05 ints.verdict.seq] (k == 17 || k == 23) && sb.nw(errBuf) > old(sb.nw(errBuf)) ==> exists(j Int :: {rv.index(tv, j)} 0 <= j && j < rv.len(tv) && !matches(IntRe, ToStr(rv.iface(rv.index(tv, j)))))
+//@   ensures [C05 ints.verdict.seq] (k == 17 || k == 23) && sb.nw(errBuf) == old(sb.nw(errBuf)) ==> forall(j Int :: {rv.index(tv, j)} 0 <= j && j < rv.len(tv) ==> matches(IntRe, ToStr(rv.iface(rv.index(tv, j)))))
+//@   ensures [C05 ints.verdict.num] isIntKind(k) || isUintNKind(k) ==> sb.nw(errBuf) == old(sb.nw(errBuf))
+//@   ensures [C05 ints.verdict.other] k != 24 && k != 17 && k != 23 && !isIntKind(k) && !isUintNKind(k) ==> sb.nw(errBuf) > old(sb.nw(errBuf))
+//@   loop#0 invariant [C05 ints.scan.str] is && sb.nw(errBuf) == old(sb.nw(errBuf)) && forall(j Int :: {splitAt(valStr, split, j)} 0 <= j && j <= rangeindex ==> matches(IntRe, splitAt(valStr, split, j)))
+//@   loop#1 invariant [C05 ints.scan.seq] sb.nw(errBuf) == old(sb.nw(errBuf)) && (is <==> forall(j Int :: {rv.index(tv, j)} 0 <= j && j < i ==> matches(IntRe, ToStr(rv.iface(rv.index(tv, j))))))
 //@   at call GetJoinValidErrStr#* assert [C15 ints.msg] ParseValidNameKV.cusMsg(validName) != "" ==> len(others) == 1 && others[0] == ParseValidNameKV.cusMsg(validName)
 //@   requires errBuf != nil && rv.valid(tv) && !rv.ro(tv)
 //@   modifies sb.content(errBuf), sb.nw(errBuf)
 //@   ensures [C02 ints.once] sb.nw(errBuf) <= old(sb.nw(errBuf)) + 1 && prefixof(old(sb.content(errBuf)), sb.content(errBuf))
-//@   loop#1 invariant 0 <= i && l == rv.len(tv)
+//@   loop#1 invariant 0 <= i && i <= l && l == rv.len(tv)
 //@   loop#1 decreases l - i
 
+// unique: the comma-separated pieces of a string (strings.Split) / the canonical renderings of the elements of a slice or
+// array are pairwise different. dupS / dupQ are the executable property sentences; the loops count distinct pieces in a map.
+//@ spec dupS(s String, n Int) Bool = exists(a Int, b Int :: {splitAt(s, ",", a), splitAt(s, ",", b)} 0 <= a && a < b && b < n && splitAt(s, ",", a) == splitAt(s, ",", b))
+//@ spec elemStr(v RVal, j Int) String = ToStr(rv.iface(rv.index(v, j)))
+//@ spec dupQ(v RVal, n Int) Bool = exists(a Int, b Int :: {rv.index(v, a), rv.index(v, b)} 0 <= a && a < b && b < n && elemStr(v, a) == elemStr(v, b))
 //@ func Unique
+//@   let k = rv.kind(tv)
+//@   ensures [C05 unique.verdict.str] k == 24 ==> ((sb.nw(errBuf) > old(sb.nw(errBuf))) <==> dupS(rv.str(tv), splitCount(rv.str(tv), ",")))
+//@   ensures [C05 unique.verdict.seq] (k == 17 || k == 23) ==> ((sb.nw(errBuf) > old(sb.nw(errBuf))) <==> dupQ(tv, rv.len(tv)))
+//@   ensures [C05 unique.verdict.other] k != 24 && k != 17 && k != 23 ==> sb.nw(errBuf) > old(sb.nw(errBuf))
+//@   loop#0 invariant [C05 unique.count.str] sb.nw(errBuf) == old(sb.nw(errBuf)) && len(uniqueMap) <= rangeindex + 1 && ((len(uniqueMap) == rangeindex + 1) <==> !dupS(inVal, rangeindex + 1))
+//@   loop#0 invariant [C05 unique.count.str] forall(x String :: {has(uniqueMap, x)} has(uniqueMap, x) <==> exists(j Int :: {splitAt(inVal, ",", j)} 0 <= j && j <= rangeindex && x == splitAt(inVal, ",", j)))
+//@   loop#1 invariant [C05 unique.count.seq] sb.nw(errBuf) == old(sb.nw(errBuf)) && i <= l && len(uniqueMap) <= i && ((len(uniqueMap) == i) <==> !dupQ(tv, i))
+//@   loop#1 invariant [C05 unique.count.seq] forall(x String :: {has(uniqueMap, x)} has(uniqueMap, x) <==> exists(j Int :: {rv.index(tv, j)} 0 <= j && j < i && x == elemStr(tv, j)))
 //@   at call GetJoinValidErrStr#* assert [C15 unique.msg] ParseValidNameKV.cusMsg(validName) != "" ==> len(others) == 1 && others[0] == ParseValidNameKV.cusMsg(validName)
 //@   requires errBuf != nil && rv.valid(tv) && !rv.ro(tv)
 //@   modifies sb.content(errBuf), sb.nw(errBuf)
@@ -1021,7 +1046,20 @@ package valid
 //@   loop#1 invariant 0 <= i && l == rv.len(tv) && uniqueMap != nil && fresh(uniqueMap)
 //@   loop#1 decreases l - i
 
+// datetime: the value parses under the layout built from the separators in force: the first three comma-separated pieces of
+// the rule's (quote-trimmed) value replace, in order, the date separator "-", the date/time separator " " and the time separator ":"
 //@ func Datetime
+//@   let pv = ParseValidNameKV.value(validName)
+//@   let ptr = trimSet(pv, "'")
+//@   let pn = splitCount(ptr, ",")
+//@   let d  = ite(pv != "", splitAt(ptr, ",", 0), "-")
+//@   let dt = ite(pv != "" && pn >= 2, splitAt(ptr, ",", 1), " ")
+//@   let t  = ite(pv != "" && pn >= 3, splitAt(ptr, ",", 2), ":")
+//@   ensures [C05 datetime.verdict] rv.kind(tv) == 24 ==> ((sb.nw(errBuf) > old(sb.nw(errBuf))) <==> !timeParses("2006" ++ d ++ "01" ++ d ++ "02" ++ dt ++ "15" ++ t ++ "04" ++ t ++ "05", rv.str(tv)))
+//@   loop#0 invariant [C05 datetime.seps] sb.nw(errBuf) == old(sb.nw(errBuf)) && rangeindex <= 2
+//@   loop#0 invariant [C05 datetime.seps] defaultSplit[0] == ite(rangeindex >= 0, splitAt(trimSet(val, "'"), ",", 0), "-")
+//@   loop#0 invariant [C05 datetime.seps] defaultSplit[1] == ite(rangeindex >= 1, splitAt(trimSet(val, "'"), ",", 1), " ")
+//@   loop#0 invariant [C05 datetime.seps] defaultSplit[2] == ite(rangeindex >= 2, splitAt(trimSet(val, "'"), ",", 2), ":")
 //@   at call GetJoinValidErrStr#* assert [C15 datetime.msg] ParseValidNameKV.cusMsg(validName) != "" ==> len(others) == 1 && others[0] == ParseValidNameKV.cusMsg(validName)
 //@   requires errBuf != nil && rv.valid(tv) && !rv.ro(tv)
 //@   modifies sb.content(errBuf), sb.nw(errBuf)
